@@ -1,15 +1,15 @@
 package vc
 
 import (
-	"os"
-	"runtime/debug"
-	"sync/atomic"
-	"time"
 	"fmt"
 	"go/token"
 	"go/types"
+	"os"
+	"runtime/debug"
 	"sort"
 	"strings"
+	"sync/atomic"
+	"time"
 
 	"golang.org/x/tools/go/ssa"
 )
@@ -28,17 +28,17 @@ type Obligation struct {
 	Cover  bool   // a cover query: expected NOT to be unsat
 	Detail string
 	// results
-	Status  string
-	Solver  string
-	Time    float64
-	File    string
-	AllRes  []SolverResult
-	Axioms  []string
-	NoAxioms []string
-	Opaque   []string
+	Status       string
+	Solver       string
+	Time         float64
+	File         string
+	AllRes       []SolverResult
+	Axioms       []string
+	NoAxioms     []string
+	Opaque       []string
 	ProvingLemma bool
-	FindingHyp *Term // negated characteristic predicate of a listed known finding
-	retried bool
+	FindingHyp   *Term // negated characteristic predicate of a listed known finding
+	retried      bool
 }
 
 func (o *Obligation) FullName() string { return o.Func + "#" + o.Name }
@@ -68,8 +68,8 @@ type Exec struct {
 	initAlloc  int64
 	initBoxes  map[int64]Value
 
-	Findings   map[string]*Finding
-	regexps    map[int64]string
+	Findings map[string]*Finding
+	regexps  map[int64]string
 
 	// per-function run
 	cur         *funcRun
@@ -85,24 +85,24 @@ type Exec struct {
 }
 
 type funcRun struct {
-	key        string
-	fn         *ssa.Function
-	contract   *Contract
-	obls       []*Obligation
-	paths      int
-	unsupported []string
-	inlined    map[string]bool
-	libCalls   map[string]bool
-	unmodelled map[string]bool
-	contractsUsed map[string]bool
-	trustedUsed map[string]bool
-	siteIDs    map[*ssa.Function]map[ssa.Instruction]int
-	reachedReturn int
-	merges int
-	allocObjs map[string]*Object
-	strLens   map[Key]int64
+	key                string
+	fn                 *ssa.Function
+	contract           *Contract
+	obls               []*Obligation
+	paths              int
+	unsupported        []string
+	inlined            map[string]bool
+	libCalls           map[string]bool
+	unmodelled         map[string]bool
+	contractsUsed      map[string]bool
+	trustedUsed        map[string]bool
+	siteIDs            map[*ssa.Function]map[ssa.Instruction]int
+	reachedReturn      int
+	merges             int
+	allocObjs          map[string]*Object
+	strLens            map[Key]int64
 	ensuresAnteReached map[string]bool
-	started time.Time
+	started            time.Time
 }
 
 type unsupportedErr struct{ msg string }
@@ -210,54 +210,54 @@ type loopCtx struct {
 }
 
 type Frame struct {
-	fn     *ssa.Function
-	block  *ssa.BasicBlock
-	prev   *ssa.BasicBlock
-	idx    int
-	regs   map[ssa.Value]Value
-	defers []deferred
-	loops  []*loopCtx
-	visits map[*ssa.BasicBlock]int
-	callInstr ssa.Instruction // in the caller frame: the call instruction awaiting the result
+	fn            *ssa.Function
+	block         *ssa.BasicBlock
+	prev          *ssa.BasicBlock
+	idx           int
+	regs          map[ssa.Value]Value
+	defers        []deferred
+	loops         []*loopCtx
+	visits        map[*ssa.BasicBlock]int
+	callInstr     ssa.Instruction // in the caller frame: the call instruction awaiting the result
 	runningDefers bool
-	allocCount map[ssa.Instruction]int
-	instance  int
-	pendingRet []Value
-	returning bool
-	deferResume int
+	allocCount    map[ssa.Instruction]int
+	instance      int
+	pendingRet    []Value
+	returning     bool
+	deferResume   int
 }
 
 type State struct {
-	pc      []*Term
-	seen    *seenSet
-	frames  []*Frame
-	mem     map[*Object]Value
-	heaps   map[string]*Term
-	alloc   *Term
+	pc        []*Term
+	seen      *seenSet
+	frames    []*Frame
+	mem       map[*Object]Value
+	heaps     map[string]*Term
+	alloc     *Term
 	freshRefs []*Term
-	decided map[Key]bool
-	ifaceRes map[*VIface]int
-	ghost   map[string]Value
-	boxes   map[int64]Value
-	nbox    *int64
+	decided   map[Key]bool
+	ifaceRes  map[*VIface]int
+	ghost     map[string]Value
+	boxes     map[int64]Value
+	nbox      *int64
 	// entry snapshot for old()
-	entry *State
-	alloc0 *Term
+	entry     *State
+	alloc0    *Term
 	paramVals map[string]Value
-	results  []Value
-	impls    []*Term
-	released bool
-	steps    int
-	id int
+	results   []Value
+	impls     []*Term
+	released  bool
+	steps     int
+	id        int
 }
 
 func (st *State) clone() *State {
 	checkAbort()
 	n := &State{
-		pc: append([]*Term(nil), st.pc...),
+		pc:  append([]*Term(nil), st.pc...),
 		mem: map[*Object]Value{}, heaps: map[string]*Term{}, alloc: st.alloc,
 		freshRefs: append([]*Term(nil), st.freshRefs...),
-		decided: map[Key]bool{}, ifaceRes: map[*VIface]int{}, ghost: map[string]Value{},
+		decided:   map[Key]bool{}, ifaceRes: map[*VIface]int{}, ghost: map[string]Value{},
 		boxes: st.boxes, nbox: st.nbox, entry: st.entry, alloc0: st.alloc0, paramVals: st.paramVals,
 		impls: append([]*Term(nil), st.impls...),
 		steps: st.steps,
@@ -1158,4 +1158,14 @@ func (ex *Exec) pointsIntoModule(t types.Type) bool {
 		return ex.inModule(n.Obj().Pkg())
 	}
 	return true
+}
+
+// sortedKeys: the keys of a heap map in a fixed order (fresh names are numbered in the order they are made).
+func sortedKeys(m map[string]*Term) []string {
+	ks := make([]string, 0, len(m))
+	for k := range m {
+		ks = append(ks, k)
+	}
+	sort.Strings(ks)
+	return ks
 }
